@@ -40,7 +40,8 @@ shutil.rmtree(dst, ignore_errors=True); os.makedirs(dst)
 shutil.copy(os.path.join(src, "patch.diff"), dst)
 if os.path.exists(os.path.join(src, "notes.md")): shutil.copy(os.path.join(src, "notes.md"), dst)
 res["silent"] = [c for c, v in res["checks"].items() if v["exit"] == 0]
-res["no_failing_input_found"] = [c for c, v in res["checks"].items() if v["exit"] == 1 and all("no-failing-input-found" in l for l in v["violation_lines"])]
+res["check_crashed"] = [c for c, v in res["checks"].items() if v["exit"] not in (0, 1) or (v["exit"] == 1 and not v["violation_lines"])]
+res["no_failing_input_found"] = [c for c, v in res["checks"].items() if v["exit"] == 1 and v["violation_lines"] and all("no-failing-input-found" in l for l in v["violation_lines"])]
 res["false_alarm_with_witness"] = [c for c, v in res["checks"].items() if v["exit"] == 1 and any("no-failing-input-found" not in l for l in v["violation_lines"])]
 json.dump({"kind": "property-preserving change (false-alarm probe)", "what_i_ran": [f"VERIF_REPO=<changed worktree> ./check {c} --tier quick" for c in checks], "result": res},
           open(os.path.join(dst, "meta.json"), "w"), indent=1)
